@@ -180,7 +180,7 @@ def run_cases(cases):
     return out
 
 
-DATAS = [{}, {"a": 1}, {"title": "ü\"'\\ ☃", "l": [1, {"k": None}], "f": 0.5}, {"nested": {"x": [True, None, 1.25e-3]}}]
+DATAS = [{}, {"a": 1}, {"url": None, "a": {"b": None, "c": [None]}}, {"title": "ü\"'\\ ☃", "l": [1, {"k": None}], "f": 0.5}, {"nested": {"x": [True, None, 1.25e-3]}}]
 DAYS_POOL = [0, 1, 365, 10957, 11016, 13879, 17166, 19000, 24855, 24856, 40000, 47481]
 OFFS_POOL = [-840, -720, -570, -330, -60, -1, 0, 1, 60, 345, 330, 570, 765, 840]
 
